@@ -57,15 +57,23 @@ var orderNames = []string{"LE", "BE"}
 
 // drawSRID draws an SRID in [1, 2^31).
 func drawSRID(s *core.Source) int {
-	switch s.Pick([]int{3, 2, 2, 1}, "sridkind") {
+	switch s.Pick([]int{3, 2, 2, 1, 2}, "sridkind") {
 	case 0:
 		return []int{4326, 3857, 1, 27700, 900913}[s.Intn(5, "common")]
 	case 1:
 		return 1 + s.Intn(1<<31-1, "srid31")
 	case 2:
 		return []int{1, 2, 255, 256, 65535, 65536, 1<<24 - 1, 1 << 24, 0x20000000, 0x20000001, 1<<31 - 1, 1 << 30}[s.Intn(12, "boundary")]
-	default:
+	case 3:
 		return 1 + s.Intn(70000, "small")
+	default:
+		// bytes that the scanner's framing detection looks for ('0','1','\\','x', 0, 1) in every position
+		pool := []uint32{0x00, 0x01, 0x30, 0x31, 0x5c, 0x78, 0x7f}
+		v := pool[s.Intn(7, "b0")] | pool[s.Intn(7, "b1")]<<8 | pool[s.Intn(7, "b2")]<<16 | pool[s.Intn(6, "b3")]<<24
+		if v == 0 {
+			v = 0x3030
+		}
+		return int(v)
 	}
 }
 
@@ -731,6 +739,61 @@ func RunPaths(t *core.T) {
 	}
 	if !t.Failed() && s.Chance(1, 2, "reuse?") {
 		scannerReuse(t, g)
+	}
+	if !t.Failed() && s.Chance(1, 2, "two-args?") {
+		twoValuers(t, g, srid)
+	}
+}
+
+// twoValuers: one statement with two geometry arguments. database/sql calls
+// Value() on every argument before it hands any of them to the driver, so the
+// bytes of the first must still be intact when the second has been produced.
+func twoValuers(t *core.T, first orb.Geometry, srid int) {
+	s := t.Src
+	s.Begin("two-args")
+	defer s.End()
+	o := gen.DefaultOpts()
+	o.TopNil = false
+	second := gen.Geometry(s, o)
+	kind := s.Intn(3, "valuer")
+	mk := func(g orb.Geometry) interface{} {
+		switch kind {
+		case 0:
+			return wkb.Value(g)
+		case 1:
+			return ewkb.Value(g, srid)
+		}
+		return ewkb.ValuePrefixSRID(g, 4326)
+	}
+	api := []string{"wkb.Value", "ewkb.Value", "ewkb.ValuePrefixSRID"}[kind] + " x2"
+	simdb.S = simdb.State{}
+	var err error
+	if t.Guard(api, func() { _, err = simdb.DB().Exec("INSERT INTO t (a, b) VALUES (?, ?)", mk(first), mk(second)) }) {
+		return
+	}
+	if err != nil || len(simdb.S.Cells) != 2 {
+		t.Violate("valuer", api, "", "inserting two geometries in one statement failed: %v", err)
+		return
+	}
+	for i, g := range []orb.Geometry{first, second} {
+		norm, ok := m.Normalise(g)
+		cell := simdb.S.Cells[i]
+		if !ok {
+			if cell != nil {
+				t.Violate("nil-no-bytes", api, "", "argument %d (%s) must be stored as NULL, got %x", i, gen.Describe(g), cell)
+			}
+			continue
+		}
+		if kind == 2 && len(cell) >= 4 {
+			cell = cell[4:]
+		}
+		got, _, derr := ewkb.Unmarshal(cp(cell))
+		t.Logf("%s argument %d %s stored as %x", api, i, gen.Describe(norm), cell)
+		if derr != nil || !m.Equal(got, norm) {
+			t.Violate("valuer", api, "", "argument %d of a two-argument statement: value %s, the database received bytes that decode to %s (err %v)", i, gen.Describe(norm), gen.Describe(got), derr)
+			return
+		}
+		t.Op()
 	}
 }
 
